@@ -30,9 +30,12 @@ def write(property_id: str, *, tier: str, seed: int, level: str, coverage: Dict[
     }
     if extra:
         out.update(extra)
-    path = ROOT / "evidence" / f"{property_id}.json"
-    path.parent.mkdir(exist_ok=True)
-    tmp = path.with_suffix(".json.tmp")
+    # VERIF_EVIDENCE_DIR: developer aid for runs against scratch copies (seed sweeps), so that they do not overwrite the
+    # evidence of the real tree
+    base = Path(os.environ["VERIF_EVIDENCE_DIR"]) if os.environ.get("VERIF_EVIDENCE_DIR") else ROOT / "evidence"
+    path = base / f"{property_id}.json"
+    path.parent.mkdir(parents=True, exist_ok=True)
+    tmp = path.with_suffix(f".json.tmp{os.getpid()}")
     tmp.write_text(json.dumps(out, indent=1, sort_keys=False, default=str) + "\n", encoding="utf-8")
     os.replace(tmp, path)
     return path
